@@ -238,6 +238,9 @@ def features(case):
                 fs.add("class")
             if st[0] == "var":
                 fs.add("var:" + type(M.dec(prog["vars"][st[1]]["val"])).__name__)
+                v = prog["vars"][st[1]]
+                if any(o["name"] == v["name"] and o["mod"] != v["mod"] for o in prog["vars"]):
+                    fs.add("same-var-name-in-two-modules")
     for stp in case["steps"]:
         if stp[0] == "edit":
             fs.add("edit:" + stp[1][0])
